@@ -143,6 +143,9 @@ func tlsConfigs() (*tls.Config, *tls.Config) {
 // serveConnParks counts, per run, the parks at the serve.conn yield point (coverage probe).
 var serveConnParks atomic.Int64
 
+// deliverParks counts, per run, the parks at the deliver.start yield point (coverage probe).
+var deliverParks atomic.Int64
+
 const (
 	classMain   = 0
 	classListen = 2
@@ -234,6 +237,9 @@ func runScenarioIn(t *testing.T, sc *Scenario, h *History) {
 			if point == "serve.conn" {
 				serveConnParks.Add(1)
 			}
+			if point == "deliver.start" {
+				deliverParks.Add(1)
+			}
 			sleepClass(40+int(yn.Add(1))%8, yp)
 		}
 		defer func() { smtp.VerifYield = nil }()
@@ -306,6 +312,7 @@ func runScenarioIn(t *testing.T, sc *Scenario, h *History) {
 			srvEnd.rd.caps = cs.SrvCaps
 			srvEnd.rd.eofWithData = cs.SrvEOFWithData
 			srvEnd.faults = cs.SrvFaults
+			cliEnd.faults.Rendezvous = cs.SrvFaults.Rendezvous
 			halves[i] = [2]*SimConn{srvEnd, cliEnd}
 			ch := &ConnHistory{ID: i, TLSSent: -1, TLSRecv: -1, SrvCloseSeq: -1}
 			h.Conns[i] = ch
